@@ -2,6 +2,9 @@
 
 HARNESSES = {
     "buffers": dict(cfg="asan", sources=["harness/buffers.cpp"], use_lib=False),
+    "int2str": dict(cfg="asan_nso", sources=["harness/int2str.cpp"], lib_only=["/format/detail/"]),
+    "int2str_fast": dict(cfg="plain", sources=["harness/int2str.cpp"], lib_only=["/format/detail/"],
+                         kind_text="bounded exhaustive enumeration (all 2^32 values), plain -O2 build with canaries"),
 }
 
 PROPS = {}
@@ -27,12 +30,47 @@ PROPS["C19"] = dict(
                  "total requested bytes never exceed the source length"],
 )
 
+PROPS["C13"] = dict(
+    units=[
+        dict(harness="int2str", mode="small", kind="enum", quick=dict(), thorough=dict()),
+        dict(harness="int2str", mode="boundaries", kind="enum", quick=dict(), thorough=dict()),
+        dict(harness="int2str", mode="rand", quick=dict(cases=60000), thorough=dict(cases=400000, shards=8)),
+        dict(harness="int2str_fast", mode="sweep32", kind="enum",
+             quick=dict(shards=8, opts=dict(stride=509)), thorough=dict(shards=16, opts=dict(stride=1))),
+        dict(harness="int2str_fast", mode="sweep64", kind="enum",
+             quick=dict(shards=8, opts=dict(count=1000000)), thorough=dict(shards=16, opts=dict(count=40000000))),
+    ],
+    rule="int8/uint8/int16/uint16: every value (x4 group characters; all 95 printable for the 8-bit types and a "
+         "sample of the 16-bit ones); int32/uint32: stride sweep in the quick tier, every one of the 2^32 values in "
+         "the thorough tier (16 shards); 32/64 bit: every 10^k+-2, 2^k+-2, limits x all 95 printable group characters; "
+         "64 bit: low-discrepancy walk over all magnitudes + rapidcheck-generated values (uniform bit width, then "
+         "uniform value) with generated group characters. Each value is checked in 4 variants (plain/grouped x "
+         "string/buffer) + round trip. Non-trivial = value needs at least one group character (|v|>=1000) or lies "
+         "within +-2 of a power of ten; enumerated values are distinct by construction and counted exactly, "
+         "generated ones by fingerprint.",
+    require_classes=dict(all=["enumerated_all_values.int8", "enumerated_all_values.uint16", "boundary.int64",
+                              "boundary.uint64", "type.int64", "type.uint64", "sweep32.values_per_type", "sweep64.values"]),
+    assumptions=["signed-overflow UB when negating the type minimum is outside the property (text is what counts): "
+                 "harness built with -fno-sanitize=signed-integer-overflow",
+                 "round trip uses celma::format::stringTo<T> on the plain text only (grouped text is not parseable by design)",
+                 "the full 32-bit sweep runs in an uninstrumented -O2 build with canary bytes around the buffer; "
+                 "the sampled parts run under ASan with exact-size heap buffers"],
+)
+
 HOOK_COMMITS = []
 
 EXPL = ("no counter-example among the generated cases; this is search, not proof - a passing run never shows absence. "
         "Exploration is the honest level because the property quantifies over an unbounded input/history space.")
 
 MANIFEST_TEXT = {}
+MANIFEST_TEXT["C13"] = dict(
+    text="All 8/16-bit values in every tier and all 2^32 values of both 32-bit types in the thorough tier are enumerated "
+         "(exhaustive for those sub-spaces); 64-bit types are covered by the full power-of-ten/power-of-two boundary set, "
+         "a deterministic walk and rapidcheck-generated values. Oracle: an independent digit loop + group inserter, "
+         "canary/ASan-guarded buffers, stringTo round trip. " + EXPL,
+    design_ref="DESIGN.md section 4, C13",
+    note="Trusts the 30-line reference converter in harness/int2str.cpp; 64-bit space is sampled, not enumerated.",
+    technique="bounded exhaustive enumeration + property-based testing (rapidcheck) against an independent reference conversion")
 MANIFEST_TEXT["C19"] = dict(
     text="Exhaustive enumeration of all get/append sequences up to length 5 for buffer sizes 1..3 (all chunk scripts), plus "
          "rapidcheck-generated sequences for sizes up to 64, each compared byte for byte with the source / the appended stream. " + EXPL,
